@@ -323,6 +323,7 @@ def shared(ctx):
     from rules.props import c20, c03
     core.import_rules(ctx, [c20.r1_protocol, c20.r2_confinement, c20.r4_activation], "X20")
     core.import_rules(ctx, [c03.r2_batch_commutativity], "X03")
+    core.import_rules(ctx, [c03.r1_inventory], "X03")           # "roots are functions of the contents alone": nothing that reaches a tree or a commitment vector takes its order from a hash map
     core.import_rules(ctx, [c03.r4_commitment_order], "X03")          # "every block transaction can be proven present": positions are taken from the ORDERED transaction set
     from rules.props import c06
     core.import_rules(ctx, [c06.r5_activation_table], "X06")          # which transaction commitment the header carries is decided by TIP-908
